@@ -540,9 +540,13 @@ class ValueAccumulator(base.CallableMetric):
     return base.as_agg_fn(self.__class__, self.concat_fn, self.metric_fns)
 
   def new(self, *args):
+    # The batch state keeps the configuration: the one-shot call is
+    # `new(batch).result()` and has to apply `metric_fns`.
     if self.concat_fn:
-      return self.__class__(_data=tuple(x for x in args))
-    return self.__class__(_data=tuple([x] for x in args))
+      data = tuple(x for x in args)
+    else:
+      data = tuple([x] for x in args)
+    return self.__class__(self.concat_fn, self.metric_fns, _data=data)
 
   def merge(self, other: Self) -> None:
     if not other.data:
